@@ -97,18 +97,25 @@ Definition next_params (p : params) (o : op) : params :=
   | _ => p
   end.
 
+(** what the schedule needs of the polynomial at the (c+1)-th enabled epoch: while the schedule has not ended the
+    provision is positive (at least one unibi if a smaller one panics).  [poly_ok] implies it for every c. *)
+Definition prov_ok (zp : bool) (p : params) (c : Z) : Prop :=
+  c / p_epp p < p_max p -> (if zp then PREC else 1) <= poly_provision p (c / p_epp p).
+
 (** histories the property quantifies over: day epochs end with consecutive numbers starting at [e];
     EpochsPerPeriod = E and MaxPeriod = M throughout; whenever an enabled day epoch ends the polynomial is
-    positive below MaxPeriod and the proportions are valid; no stray coins in the module account *)
-Fixpoint hist_ok (zp : bool) (E M : Z) (p : params) (e : Z) (ops : list op) : Prop :=
+    positive at the scheduled period and the proportions are valid; no stray coins in the module account.
+    [c] = enabled day epochs so far. *)
+Fixpoint hist_ok (zp : bool) (E M : Z) (p : params) (c e : Z) (ops : list op) : Prop :=
   match ops with
   | [] => True
   | o :: r =>
       match o with
       | EpochEnd true e' =>
-          e' = e /\ 0 <= e < two62 /\ (p_enabled p = true -> poly_ok zp p /\ dist_ok p) /\ hist_ok zp E M p (e + 1) r
+          e' = e /\ 0 <= e < two62 /\ (p_enabled p = true -> prov_ok zp p c /\ dist_ok p) /\
+          hist_ok zp E M p (if p_enabled p then c + 1 else c) (e + 1) r
       | Fund _ => False
-      | _ => p_epp (next_params p o) = E /\ p_max (next_params p o) = M /\ hist_ok zp E M (next_params p o) e r
+      | _ => p_epp (next_params p o) = E /\ p_max (next_params p o) = M /\ hist_ok zp E M (next_params p o) c e r
       end
   end.
 
